@@ -165,7 +165,8 @@ CHECKS = {
     text='Bounded symbolic execution of the real scc/nonterminal_graph: adjacency bits, insertion order and HRG shape are solver variables; '
          'every path of the real code within the bound is explored (solver-complete partition) and compared with an independent reachability oracle. '
          'Right level: the functions are small pure graph algorithms whose only inputs are finite structures.',
-    note='Bounds: digraphs with <=3 (quick) / <=4 (thorough) vertices incl. self-loops, all insertion orders for n<=3; HRGs with <=2/3 rules over 3 nonterminals. '
+    note='Bounds: digraphs with <=3 (quick) / <=4 (thorough) vertices incl. self-loops, all insertion orders for n<=3; additionally loop-free digraphs on 4 vertices with <=4 (thorough <=6) edges under all 24 key orders and both neighbour-list orders, thorough also 5 vertices with <=4 edges under 12 key orders '
+         '(a cross edge into a finished component is told from a back edge only by the visiting order); HRGs with <=2/3 rules over 3 nonterminals. '
          'The corollary on sum_products keys is checked by C01.',
     technique='bounded symbolic execution (z3-driven path forking), per-path oracle', design='5/C19'),
 }
